@@ -154,7 +154,7 @@ def iterStep (s : Sess) (c : Cmd) (m : Mem) : Sess × String × String :=
           fin { s with zit := (r.2.2.1), mem := (r.2.2.2), sit := (rs.2.2), itChanged := if r.1 == .ok then false else s.itChanged }
             (hOut2 rs.1 rs.2.1) (hOut2 r.1 r.2.1)
         | "add" =>
-          if last == none || s.itChanged then fin1 s "st=- contract" else
+          if last == none then fin1 s "st=- contract" else
           let r := DList.zipAdd l1 l2 z (c.arg 0) (c.arg 1) m
           let sx1 := setM (setM s s.itO (some r.2.1)) s.itO2 (some r.2.2.1)
           let s' := { sx1 with zit := (r.2.2.2.1), mem := (r.2.2.2.2), itChanged := if r.1 == .ok then true else s.itChanged }
@@ -163,7 +163,6 @@ def iterStep (s : Sess) (c : Cmd) (m : Mem) : Sess × String × String :=
           let sx2 := setS (setS s' s.itO (some rs.1)) s.itO2 (some rs.2.1)
           fin { sx2 with sit := (rs.2.2) } (fmtStat .ok) (fmtStat r.1)
         | "remove" =>
-          if last != none && s.itChanged then fin1 s "st=- contract" else
           let r := DList.zipRemove l1 l2 z m
           let rs := LSeq.zitRemove a1 a2 s.sit
           let sx3 := setM (setM s s.itO (some r.2.2.1)) s.itO2 (some r.2.2.2.1)
@@ -191,7 +190,7 @@ def iterStep (s : Sess) (c : Cmd) (m : Mem) : Sess × String × String :=
           fin { s with it := (r.2.2.1), mem := (r.2.2.2), sit := (rs.2.2), itChanged := if r.1 == .ok then false else s.itChanged }
             (hOut rs.1 rs.2.1) (hOut r.1 r.2.1)
         | "add" =>
-          if it.last == none || s.itChanged then fin1 s "st=- contract" else
+          if it.last == none then fin1 s "st=- contract" else
           let r := if asc then DList.iterAdd l it (c.arg 0) m else DList.diterAdd l it (c.arg 0) m
           let sx6 := setM s s.itO (some r.2.1)
           let s' := { sx6 with it := (r.2.2.1), mem := (r.2.2.2), itChanged := if r.1 == .ok then true else s.itChanged }
@@ -200,7 +199,6 @@ def iterStep (s : Sess) (c : Cmd) (m : Mem) : Sess × String × String :=
           let sx7 := setS s' s.itO (some rs.1)
           fin { sx7 with sit := rs.2 } (fmtStat .ok) (fmtStat r.1)
         | "remove" =>
-          if it.last != none && s.itChanged then fin1 s "st=- contract" else
           let r := if asc then DList.iterRemove l it m else DList.diterRemove l it m
           let rs := if asc then LSeq.itRemove a s.sit else LSeq.ditRemove a s.sit
           let sx8 := setM s s.itO (some r.2.2.1)
@@ -364,7 +362,7 @@ def stepCore (s : Sess) (c : Cmd) : Sess × String × String :=
 /-! ### the pointer-level model alongside -/
 
 def plUnsupported : List String :=
-  ["sort", "sort_in_place", "filter_mut", "mk_sub", "mk_copy_shallow", "mk_copy_deep", "mk_filter"]
+  ["sort", "sort_in_place", "mk_sub", "mk_copy_shallow", "mk_copy_deep", "mk_filter"]
 
 /-- rebuild the pointer-level state from the sequence-level one (fresh nodes, linked canonically): used after the
 operations that have no pointer-level model; the shim renumbers its nodes at the same moments -/
@@ -422,11 +420,9 @@ def plStep (old s : Sess) (c : Cmd) : Sess :=
       match old.phd.getD old.itO none, old.phd.getD old.itO2 none, idAt old.itO z.last1, idAt old.itO2 z.last2 with
       | some h1, some h2, some n1, some n2 =>
         if sub == "add" then
-          if old.itChanged then s else
-          let r := PList.zipAddAt s.pst h1 h2 n1 n2 z.index (c.arg 0) (c.arg 1) m
+          let r := PList.zipAddAt s.pst h1 h2 n1 n2 (c.arg 0) (c.arg 1) m
           chk (setP (setP s old.itO r.2.1 (some r.2.2.1)) old.itO2 r.2.1 (some r.2.2.2.1)) r.2.2.2.2
         else if sub == "remove" then
-          if old.itChanged then s else
           let u1 := PList.iterRemoveAt s.pst h1 n1 m
           let u2 := PList.iterRemoveAt u1.2.1 h2 n2 u1.2.2.2
           chk (setP (setP s old.itO u2.2.1 (some u1.2.2.1)) old.itO2 u2.2.1 (some u2.2.2.1)) u2.2.2.2
@@ -439,11 +435,9 @@ def plStep (old s : Sess) (c : Cmd) : Sess :=
       match old.phd.getD old.itO none, idAt old.itO old.it.last with
       | some h, some n =>
         if sub == "add" then
-          if old.itChanged then s else
-          let r := if want == 1 then PList.iterAddAt s.pst h n old.it.index (c.arg 0) m else PList.diterAddAt s.pst h n old.it.index (c.arg 0) m
+          let r := if want == 1 then PList.iterAddAt s.pst h n (c.arg 0) m else PList.diterAddAt s.pst h n old.it.index (c.arg 0) m
           chk (setP s old.itO r.2.1 (some r.2.2.1)) r.2.2.2
         else if sub == "remove" then
-          if old.itChanged then s else
           let u := PList.iterRemoveAt s.pst h n m
           chk (setP s old.itO u.2.1 (some u.2.2.1)) u.2.2.2
         else { s with pst := (PList.iterReplaceAt s.pst n (c.arg 0)).2 }
@@ -479,6 +473,7 @@ def plStep (old s : Sess) (c : Cmd) : Sess :=
       let r := PList.replaceAt s.pst h v idx m
       chk (setP s k r.2.2.1 (some r.2.2.2.1)) r.2.2.2.2
     | "reverse" => let r := PList.reverse s.pst h; setP s k r.1 (some r.2)
+    | "filter_mut" => let r := PList.filterMut LSeq.predEven s.pst h m; chk (setP s k r.2.1 (some r.2.2.1)) r.2.2.2
     | _ => s
   | _, _ => s
 
